@@ -47,6 +47,8 @@ pub struct Pred {
     pub relax_kind: u8,
     /// arming a panic fault in this step could end in a double panic (abort)
     pub abort_risk: bool,
+    /// even under the relaxed oracle the step has to end in a panic (a rejected wrong-typed value)
+    pub must_panic: bool,
     pub relax: Relax,
     /// number of Clone invocations the model expects in this step
     pub clones: u64,
@@ -216,7 +218,7 @@ impl Model {
         r.sink = st.sink;
         r.form = st.form;
         r.script = st.script.clone();
-        let mut p = Pred { r, ev: Vec::new(), always_relaxed: false, relax_kind: 5, abort_risk: false, relax: Relax::default(), clones: 0, nontrivial: false };
+        let mut p = Pred { r, ev: Vec::new(), always_relaxed: false, relax_kind: 5, abort_risk: false, must_panic: false, relax: Relax::default(), clones: 0, nontrivial: false };
 
         if st.op == Op::Nop || (st.op != Op::New && !self.exists(slot)) {
             p.r.op = Op::Nop;
@@ -1181,6 +1183,7 @@ impl Model {
                 }
                 p.relax.prefix[slot] = start;
                 p.always_relaxed = true;
+                p.must_panic = true;
                 p.relax_kind = 10;
                 p.ev.push(Ev::Panic);
                 // hint for the strict part: only the head is promised
